@@ -327,55 +327,44 @@ class ModelGen:
         return " + ".join(terms)
 
     # ------------------------------------------------------------ queries
-    def instances(self, item_args=(1, 2)):
-        """instance step lists of every space (static ones, and ItemSpaces for a few argument values)"""
+    def instances(self, item_args=(1, 2), with_space=False):
+        """instance step lists of every space (static ones, and ItemSpaces for a few argument values);
+        with_space: pairs (steps, the space whose members the instance shows)"""
         out = []
 
-        def rec(sp, steps):
+        def rec(sp, steps, dyn):
             steps = steps + [["s", sp.name]]
             if sp.formula is None:
-                out.append(steps)
+                out.append((steps, sp))
                 for ch in sp.children.values():
-                    rec(ch, steps)
+                    rec(ch, steps, dyn)
             else:
-                for a in item_args:
+                for a in (item_args[:1] if dyn else item_args):
                     isteps = steps + [["i", [a]]]
-                    out.append(isteps)
-                    base = sp.formula.base or sp
-                    for ch in base.children.values():
-                        rec_dyn(ch, isteps)
-
-        def rec_dyn(sp, steps):
-            steps = steps + [["s", sp.name]]
-            if sp.formula is None:
-                out.append(steps)
-                for ch in sp.children.values():
-                    rec_dyn(ch, steps)
-            else:
-                for a in item_args[:1]:
-                    isteps = steps + [["i", [a]]]
-                    out.append(isteps)
+                    base = sp.formula.base or sp      # (a deleted base still tells which names were there)
+                    out.append((isteps, base))
+                    if not dyn or True:
+                        for ch in base.children.values():
+                            if ch.formula is None or not dyn:
+                                rec(ch, isteps, True)
         for t in self.rm.children.values():
-            rec(t, [])
-        return out
+            rec(t, [], False)
+        return out if with_space else [s for s, _ in out]
 
     def space_of(self, steps):
         ev = R.Evaluator(self.rm)
         return ev.inst_from_steps(steps).space
 
     def queries(self, rm=None, domain=(0, 1, 2), max_per_cell=3):
-        rm = rm or self.rm
         out = []
-        ev = R.Evaluator(rm)
-        for steps in self.instances():
+        for steps, sp in self.instances(with_space=True):
             try:
-                inst = ev.inst_from_steps(steps)
+                names = list(R.members(sp)["cells"])
             except Exception:   # noqa
                 continue
-            for n, (d, c) in R.members(inst.space)["cells"].items():
+            for n in names:
                 for x in domain[:max_per_cell]:
-                    args = [x]
-                    out.append({"inst": steps, "name": n, "args": args})
+                    out.append({"inst": steps, "name": n, "args": [x]})
         return out
 
 
